@@ -20,7 +20,7 @@ ASSUMPTIONS = ["scipy.linalg.expm is modelled by NormedSpace.exp, sqrtm(1-H^2) b
                "IEEE rounding/overflow is not modelled: theorems are over R/C, the numeric tie uses tolerance 1e-9 and |theta| <= 1e12",
                "leaf closed forms are tied by the translator (IR validated against the live class at 20-60 parameter points per class)"]
 RULE = ("circuits: seeded random gate lists of length 0..12 over 1..5 wires in 1..2 fields (overlapping/identical wire sets, idle wires, "
-        "occasionally a barrier, for which the code has no inverse) compared with the model's circuitInverse; gates: every leaf class at boundary angles, ALL control patterns up to 3 (quick) / 4 (thorough) controls around non-symmetric targets, "
+        "occasionally a barrier, for which the code has no inverse), inverted, then edited in place 0..3 times (replace/swap/reverse/pop+append/append/prepend/in-place angle change - length-preserving edits included) and inverted again after every edit, each state compared with the model's circuitInverse; gates: every leaf class at boundary angles, ALL control patterns up to 3 (quick) / 4 (thorough) controls around non-symmetric targets, "
         "multiplexers of width 1-3, and seeded random gate trees of depth <= 3/4; a case is non-trivial if the gate was constructed and its "
         "matrix computed; distinct = distinct case descriptors (seed + structure)")
 TECHNIQUE = "Lean 4 proof (structural induction over gate trees; leaf definitions regenerated from source) + exact differential check of composite assembly"
@@ -30,6 +30,7 @@ ROUND_BITS = 80
 
 
 def _circuit_cases(tier, rng):
+    """a circuit object that is inverted, edited, inverted again ...: `edits` are applied to the SAME Circuit between inverse() calls"""
     from props import c04
     n = 1200 if tier == "thorough" else 220
     for i in range(n):
@@ -44,55 +45,93 @@ def _circuit_cases(tier, rng):
         order = list(ids)
         rng.shuffle(order)
         allp = [(fid, k) for fid, s, _ in defs for k in range(s)]
-        length = rng.choice([0, 1, 1, 2, 3, 4, 6, 9, 12]) if tier == "thorough" else rng.choice([0, 1, 2, 3, 4, 6, 8])
-        gates = []
-        for _ in range(length):
+
+        def rgate():
             gd, m = c04.rand_gate_desc(rng, min(len(allp), 3))
-            gates.append({"gate": gd, "particles": [list(p) for p in rng.sample(allp, m)]})
-        yield {"op": "circuit.inverse", "field_defs": defs, "order": order, "gates": gates,
+            return {"gate": gd, "particles": [list(p) for p in rng.sample(allp, m)]}
+        length = rng.choice([0, 1, 1, 2, 3, 4, 6, 9, 12]) if tier == "thorough" else rng.choice([0, 1, 2, 3, 4, 6, 8])
+        gates = [rgate() for _ in range(length)]
+        edits = []
+        for _ in range(rng.choice([0, 0, 1, 2, 3])):
+            k = rng.choice(["replace", "pop_append", "append", "reverse", "swap", "prepend", "inplace"])
+            edits.append([k, rng.randrange(10 ** 6), rgate()])
+        yield {"op": "circuit.inverse", "field_defs": defs, "order": order, "gates": gates, "edits": edits,
                "barrier_at": (rng.randrange(length + 1) if rng.random() < 0.05 else None)}
+
+
+def _apply_edit(qib, circ, edit, objs):
+    """edit the circuit object in place (public attribute `gates` and the builder API); length-preserving edits included"""
+    from props import c04
+    k, r, gd = edit
+    n = len(circ.gates)
+    if k == "replace" and n:
+        circ.gates[r % n] = c04.build_gate(gd, objs)
+    elif k == "pop_append" and n:
+        circ.gates.pop()
+        circ.append_gate(c04.build_gate(gd, objs))
+    elif k == "append":
+        circ.append_gate(c04.build_gate(gd, objs))
+    elif k == "prepend":
+        circ.prepend_gate(c04.build_gate(gd, objs))
+    elif k == "reverse":
+        circ.gates.reverse()
+    elif k == "swap" and n >= 2:
+        i, j = r % n, (r // 7) % n
+        circ.gates[i], circ.gates[j] = circ.gates[j], circ.gates[i]
+    elif k == "inplace" and n:
+        g = circ.gates[r % n]           # mutate a stored gate in place (the circuit owns it)
+        for attr in ("theta", "phi"):
+            if hasattr(g, attr):
+                setattr(g, attr, getattr(g, attr) + 0.5)
+                break
 
 
 def _circuit_impl(case):
     from props import c04
     qib = c04._ctx["qib"]
     fields, objs = c04.build_fields(case)
-    gobjs = [c04.build_gate(g, objs) for g in case["gates"]]
-    items = list(gobjs)
-    if case.get("barrier_at") is not None:
+    items = [c04.build_gate(g, objs) for g in case["gates"]]
+    has_ctrl = case.get("barrier_at") is not None
+    if has_ctrl:
         items.insert(case["barrier_at"], qib.operator.BarrierInstruction([]))
     circ = qib.Circuit(items)
     pid = lambda g: [[c04._fid_of(objs, p.field), int(p.index)] for p in g.particles()]
-    out = {"_gates": [{"particles": pid(g), "g": c04.dense_json(np.asarray(g.as_matrix())),
-                       "iparticles": pid(g.inverse()), "ginv": c04.dense_json(np.asarray(g.inverse().as_matrix()))} for g in gobjs]}
+
     def mat(c):
         try:
             with contextlib.redirect_stdout(io.StringIO()):
                 return {"mat": np.asarray(c.as_matrix(fields).toarray())}
         except Exception as e:
             return {"raised": c04.kind_of(e), "msg": f"{type(e).__name__}: {e}"[:120]}
-    out["c"] = mat(circ)
-    try:
-        ci = circ.inverse()
-    except Exception as e:
-        out["ci"] = {"raised": c04.kind_of(e), "msg": f"inverse(): {type(e).__name__}: {e}"[:120]}
-        out["has_ctrl"] = case.get("barrier_at") is not None
-        return out
-    out["ci"] = mat(ci)
-    out["len"] = len(ci.gates)
-    out["has_ctrl"] = case.get("barrier_at") is not None
-    # object level: k-th gate of the inverse circuit acts on the particles of the (len-1-k)-th gate, same order (= same roles)
-    out["particles_ok"] = [pid(g) for g in ci.gates] == [pid(g) for g in reversed(circ.gates)]
-    out["_alias"] = any(a is b for a in ci.gates for b in circ.gates)
+    out = {"has_ctrl": has_ctrl, "steps": [], "_steps": []}
+    for edit in [None] + list(case.get("edits", [])):
+        if edit is not None:
+            _apply_edit(qib, circ, edit, objs)
+        st = {"c": mat(circ)}
+        if not has_ctrl:
+            out["_steps"].append([{"particles": pid(g), "g": c04.dense_json(np.asarray(g.as_matrix())),
+                                   "iparticles": pid(g.inverse()), "ginv": c04.dense_json(np.asarray(g.inverse().as_matrix()))} for g in circ.gates])
+        try:
+            ci = circ.inverse()
+        except Exception as e:
+            st["ci"] = {"raised": c04.kind_of(e), "msg": f"inverse(): {type(e).__name__}: {e}"[:120]}
+            out["steps"].append(st)
+            continue
+        st["ci"] = mat(ci)
+        st["len"] = len(ci.gates)
+        st["ngates"] = len(circ.gates)
+        # object level: k-th gate of the inverse circuit acts on the particles of the (len-1-k)-th gate, same order (= same roles)
+        st["particles_ok"] = [pid(g) for g in ci.gates] == [pid(g) for g in reversed(circ.gates)]
+        out["steps"].append(st)
     return out
 
 
 def _circuit_req(case, o):
-    if "_gates" not in o or o.get("has_ctrl"):
+    if "_steps" not in o or o.get("has_ctrl"):
         return {"op": "wire", "fields": [], "particle": [0, 0]}
     defs = {fid: (ns, ld) for fid, ns, ld in case["field_defs"]}
     return {"op": "circuit.inverse", "fields": [[fid, defs[fid][0], defs[fid][1]] for fid in case["order"]],
-            "gates": o["_gates"], "round_bits": ROUND_BITS}
+            "steps": o["_steps"], "round_bits": ROUND_BITS}
 
 
 def _mm(mj):
@@ -110,14 +149,18 @@ def _circuit_compare(case, o, m):
         return "harness exception: " + o["harness_exception"] + o.get("tb", "")[-300:]
     if o.get("has_ctrl"):
         return None     # control instructions have no inverse(): the code raises, nothing to compare
-    for k in ("c", "ci"):
-        a, b = o[k], m[k]
-        if ("raised" in a) != ("raised" in b) or a.get("raised") != b.get("raised"):
-            return f"{k}: impl {a.get('raised', 'matrix')} {a.get('msg', '')} != model {b.get('raised', 'matrix')}"
-        if "mat" in a and not _close(a["mat"], _mm(b["mat"])):
-            return f"{k}: as_matrix of {'the inverse circuit' if k == 'ci' else 'the circuit'} differs from the model (reversed list of the gates' inverses)"
-    if o.get("len") != m.get("len"):
-        return f"length of the inverse circuit: impl {o.get('len')} != model {m.get('len')}"
+    if len(o["steps"]) != len(m["steps"]):
+        return f"number of steps: impl {len(o['steps'])} != model {len(m['steps'])}"
+    for i, (so, sm) in enumerate(zip(o["steps"], m["steps"])):
+        what = "initial circuit" if i == 0 else f"after edit {i} ({case['edits'][i - 1][0]})"
+        for k in ("c", "ci"):
+            a, b = so[k], sm[k]
+            if ("raised" in a) != ("raised" in b) or a.get("raised") != b.get("raised"):
+                return f"{what}: {k}: impl {a.get('raised', 'matrix')} {a.get('msg', '')} != model {b.get('raised', 'matrix')}"
+            if "mat" in a and not _close(a["mat"], _mm(b["mat"])):
+                return f"{what}: as_matrix of {'the inverse circuit' if k == 'ci' else 'the circuit'} differs from the model (reversed list of the current gates' inverses)"
+        if so.get("len") != sm.get("len"):
+            return f"{what}: length of the inverse circuit: impl {so.get('len')} != model {sm.get('len')}"
     return None
 
 
@@ -125,15 +168,18 @@ def _circuit_oracle(case, o):
     if "harness_exception" in o or o.get("has_ctrl"):
         return []
     bad = []
-    if "mat" in o["c"]:
-        if "mat" not in o["ci"]:
-            bad.append(("C03:circuit-inverse:raised", f"C.inverse() of a valid {len(case['gates'])}-gate circuit failed: {o['ci'].get('msg')}"))
-        else:
-            d = len(o["c"]["mat"])
-            if not _close(o["ci"]["mat"] @ o["c"]["mat"], np.identity(d)):
-                bad.append(("C03:circuit-inverse:not-identity", f"C.inverse().as_matrix(fields) @ C.as_matrix(fields) != 1 for a {len(case['gates'])}-gate circuit on {d.bit_length() - 1} wires"))
-    if o.get("particles_ok") is False:
-        bad.append(("C03:circuit-inverse:particles", "gates of C.inverse() do not act on the particles of the reversed gates of C"))
+    for i, st in enumerate(o["steps"]):
+        tag = "fresh" if i == 0 else "after-edit"
+        what = "freshly built circuit" if i == 0 else f"circuit after inverse() and the in-place edit(s) {[e[0] for e in case['edits'][:i]]}"
+        if "mat" in st["c"]:
+            if "mat" not in st["ci"]:
+                bad.append((f"C03:circuit-inverse:raised:{tag}", f"C.inverse() of a valid {st.get('ngates')}-gate circuit failed ({what}): {st['ci'].get('msg')}"))
+            else:
+                d = len(st["c"]["mat"])
+                if st["ci"]["mat"].shape != st["c"]["mat"].shape or not _close(st["ci"]["mat"] @ st["c"]["mat"], np.identity(d)):
+                    bad.append((f"C03:circuit-inverse:not-identity:{tag}", f"C.inverse().as_matrix(fields) @ C.as_matrix(fields) != 1 for a {st.get('ngates')}-gate circuit on {d.bit_length() - 1} wires ({what})"))
+        if st.get("particles_ok") is False:
+            bad.append((f"C03:circuit-inverse:particles:{tag}", f"gates of C.inverse() do not act on the particles of the reversed gates of C ({what})"))
     return bad
 
 
